@@ -25,6 +25,11 @@ func (ja *JSONBytesAccessor) Set(key string, value interface{}) error {
 		if err != nil {
 			return err
 		}
+	} else {
+		err := checkJSONParents(func(path string) gjson.Result { return gjson.GetBytes(*ja.json, path) }, key)
+		if err != nil {
+			return err
+		}
 	}
 
 	newJSON, err := sjson.SetBytes(*ja.json, key, value)
